@@ -17,13 +17,13 @@ type TV struct {
 }
 
 var (
-	tBool  = types.Typ[types.Bool]
-	tInt   = types.Typ[types.Int]
-	tU8    = types.Typ[types.Uint8]
-	tU64   = types.Typ[types.Uint64]
-	tNil   = types.Typ[types.UntypedNil]
-	tF64   = types.Typ[types.Float64]
-	tStr   = types.Typ[types.String]
+	tBool = types.Typ[types.Bool]
+	tInt  = types.Typ[types.Int]
+	tU8   = types.Typ[types.Uint8]
+	tU64  = types.Typ[types.Uint64]
+	tNil  = types.Typ[types.UntypedNil]
+	tF64  = types.Typ[types.Float64]
+	tStr  = types.Typ[types.String]
 )
 
 type SpecEnv struct {
@@ -33,9 +33,9 @@ type SpecEnv struct {
 	old  *State
 	pkg  *types.Package
 	// when evaluating at a call site, fresh(x) in ensures is an assumption
-	mode string // "assume" | "prove"
-	freshBase int64 // regions > freshBase are "allocated during the call"
-	loopEntry *State // state when the enclosing loop was entered (entry(e))
+	mode      string        // "assume" | "prove"
+	freshBase int64         // regions > freshBase are "allocated during the call"
+	loopEntry *State        // state when the enclosing loop was entered (entry(e))
 	prevSt    *State        // state at the head of the current iteration (prev(e), step clauses only)
 	prevVars  map[string]TV // variables at the head of the current iteration
 }
@@ -881,6 +881,27 @@ func (e *SpecEnv) evalCall(n *Node) TV {
 			return nil
 		}
 		return boolTV(Eq(rgOf(e.eval(args[0])), rgOf(e.eval(args[1]))))
+	case "eqbytes", "eqbytes_old":
+		// eqbytes(a, b): byte slices of equal length and content (address-quantified);
+		// eqbytes_old(a, b): content of b taken in the entry state
+		a, ok1 := e.eval(args[0]).V.(*SliceV)
+		b, ok2 := e.eval(args[1]).V.(*SliceV)
+		if !ok1 || !ok2 {
+			sfail("eqbytes: byte slices expected")
+		}
+		sb := e.st
+		if name == "eqbytes_old" {
+			if e.old == nil {
+				sfail("eqbytes_old: no entry state here")
+			}
+			sb = e.old
+		}
+		if name == "eqbytes" {
+			if g, ok := eqBytesSegs(e.st, a, b); ok {
+				return boolTV(And(Eq(a.Len, b.Len), g))
+			}
+		}
+		return boolTV(And(Eq(a.Len, b.Len), contentEqMem(e.st, sb, a, b, a.Len)))
 	case "samebase":
 		a, b := e.eval(args[0]).V.(*SliceV), e.eval(args[1]).V.(*SliceV)
 		return boolTV(And(Eq(a.Base, b.Base), Eq(a.Off, b.Off)))
